@@ -3,6 +3,8 @@ package logqlmetric
 import (
 	"regexp"
 
+	"github.com/cespare/xxhash/v2"
+
 	"github.com/tdakkota/docker-logql/internal/logql"
 	"github.com/tdakkota/docker-logql/internal/lokiapi"
 )
@@ -27,8 +29,14 @@ type AggregatedLabels interface {
 
 type emptyLabels struct{}
 
+// emptyLabelsKey is the key of empty label set.
+//
+// It is the hash of an empty label stream, so any other implementation of
+// [AggregatedLabels] computes the same key for a set with no labels left.
+var emptyLabelsKey = xxhash.New().Sum64()
+
 func (l *emptyLabels) By(_ ...logql.Label) AggregatedLabels                      { return l }
 func (l *emptyLabels) Without(_ ...logql.Label) AggregatedLabels                 { return l }
-func (l *emptyLabels) Key() GroupingKey                                          { return 0 }
+func (l *emptyLabels) Key() GroupingKey                                          { return emptyLabelsKey }
 func (l *emptyLabels) Replace(_, _, _ string, _ *regexp.Regexp) AggregatedLabels { return l }
 func (l *emptyLabels) AsLokiAPI() lokiapi.LabelSet                               { return lokiapi.LabelSet{} }
